@@ -151,7 +151,7 @@ func execCase(scratch string, cs runCase, timeout time.Duration) (o outcome) {
 	case len(notes["infra"]) > 0 || !hasCase:
 		o.Verdict = "infra"
 		o.Detail = fmt.Sprintf("%v exit=%d", notes["infra"], res.ExitCode)
-	case len(notes["verified"]) > 0:
+	case len(notes["verified"]) >= 1+len(cs.Extra):
 		o.Verdict = "verified"
 		o.Sabotaged = len(notes["sabotaged"]) > 0
 		if _, done := notes["done"]; !done {
@@ -171,7 +171,23 @@ func execCase(scratch string, cs runCase, timeout time.Duration) (o outcome) {
 		out, _ := os.ReadFile(res.OutPath)
 		sym, line := crashSymptom(string(out))
 		o.Sabotaged = len(notes["sabotaged"]) > 0
-		if len(notes["run_returned"]) > 0 {
+		if cs.isPair() {
+			// which member returned from Run() but not from Verify()?
+			ret, ver := map[int64]bool{}, map[int64]bool{}
+			for _, v := range notes["run_returned"] {
+				ret[toInt64Map(v)["member"]] = true
+			}
+			for _, v := range notes["verified"] {
+				ver[toInt64Map(v)["member"]] = true
+			}
+			o.Symptom = "crash:" + sym
+			for i := int64(0); i <= int64(len(cs.Extra)); i++ {
+				if ret[i] && !ver[i] {
+					o.Symptom = []string{"first", "second", "third", "fourth"}[i] + "-instance-verify-failed"
+					break
+				}
+			}
+		} else if len(notes["run_returned"]) > 0 {
 			// Run() returned, the child died inside Verify()
 			o.Symptom = "verify-failed"
 		} else {
@@ -185,6 +201,9 @@ func execCase(scratch string, cs runCase, timeout time.Duration) (o outcome) {
 var keepDirs = os.Getenv("C01_KEEP") != ""
 
 func key(cs runCase, symptom string) string {
+	if cs.isPair() {
+		return fmt.Sprintf("C01|pair:%s|%s|%s|%s|%s|%s", cs.pairName(), cs.Class.Arch, cs.Class.mode(), cs.Place, cs.Order, symptom)
+	}
 	k := fmt.Sprintf("C01|%s|%s|%s|%s|%s|%s", cs.Workload, cs.Class.Arch, cs.Class.mode(), cs.Class.gpuClass(), cs.Class.mem(), symptom)
 	if w := findWorkload(cs.Workload); w != nil {
 		if t := w.quarantine(cs.Params, cs.Class); t != "" {
@@ -348,6 +367,8 @@ func planQuick(ck *vlib.Check, ws []*workload) []runCase {
 		cs.Parallel = r.Chance(1, 5) && pr.w.parallelOK(pr.c.Arch)
 		cases = append(cases, cs)
 	}
+	// 1d: seeded multi-benchmark cases (several processes in one simulation)
+	cases = append(cases, seededPairs(ck.Rand("pairs-quick"), ws, 6, ck.Seed*1000+700, "sp")...)
 	// 2: seeded rotation of 24 (workload, class) pairs from the timing /
 	// multi-GPU / unified-memory classes
 	perm := r.Perm(len(pool))
@@ -389,6 +410,7 @@ func planThorough(ck *vlib.Check, ws []*workload) []runCase {
 			}
 		}
 	}
+	cases = append(cases, thoroughPairs(ck.Rand("pairs-thorough"), ws, ck.Seed*100000+50000)...)
 	// sabotage: one per workload, smallest size, single GPU timing platform
 	// (the only configuration in which read-back data crosses a public
 	// boundary before the application sees it; see child.go)
@@ -475,6 +497,7 @@ func main() {
 		}
 	}
 	cases = append(cases, canonical()...)
+	cases = append(cases, canonicalPairs()...)
 	if only != "" && only != "canonical" {
 		var f []runCase
 		for _, c := range cases {
@@ -488,6 +511,12 @@ func main() {
 	sort.SliceStable(cases, func(i, j int) bool {
 		wi, wj := findWorkload(cases[i].Workload), findWorkload(cases[j].Workload)
 		ci, cj := wi.Cost(cases[i].Params), wj.Cost(cases[j].Params)
+		for _, x := range cases[i].Extra {
+			ci += findWorkload(x.Workload).Cost(x.Params)
+		}
+		for _, x := range cases[j].Extra {
+			cj += findWorkload(x.Workload).Cost(x.Params)
+		}
 		if cases[i].Class.Timing {
 			ci *= 12 * cases[i].Class.NGPU
 		}
@@ -565,6 +594,11 @@ func main() {
 			continue
 		}
 		cls := fmt.Sprintf("runs/%s/%s/%s/%s", w.Suite, cs.Class.Arch, cs.Class.mode(), cs.Class.gpuClass())
+		if cs.isPair() {
+			cls = fmt.Sprintf("runs/pairs/%s/%s/%s/%s", cs.Class.Arch, cs.Class.mode(), cs.Place, cs.Order)
+			ck.Count("multi_benchmark_runs", 1)
+			ck.Distinct("pairs", cs.pairName())
+		}
 		ck.Count(cls, 1)
 		ck.Distinct("triples", cs.tripleKey())
 		ck.Distinct("workloads_run", cs.Workload)
@@ -580,8 +614,14 @@ func main() {
 			if o.PostCrash {
 				ck.Count("died_after_verify_returned", 1)
 			}
+			need := int64(1 + len(cs.Extra))
+			if cs.isPair() {
+				ck.Count("multi_benchmark_runs_verified", 1)
+			}
 			if w.OracleBlind {
 				ck.Count("verified_runs_with_blind_oracle", 1)
+			} else if cs.isPair() && (o.Trace["kernels_launched"] < need || o.Trace["d2h_started"] < need) {
+				ck.Inconclusive(fmt.Sprintf("vacuous pair run %s: kernels=%d d2h=%d for %d members", cs.tripleKey(), o.Trace["kernels_launched"], o.Trace["d2h_started"], need))
 			} else if o.Trace["kernels_launched"] >= 1 && o.Trace["d2h_started"] >= 1 && (!cs.Class.Timing || o.Trace["d2h_bytes_dma"] >= 1) {
 				ck.Nontrivial(cs.tripleKey())
 			} else {
@@ -590,7 +630,12 @@ func main() {
 			ck.Sample(map[string]any{"workload": cs.Workload, "params": cs.ParamStr, "class": cs.Class.String(), "kernels": o.Trace["kernels_launched"], "d2h": o.Trace["d2h_started"]})
 		case "failed":
 			what := fmt.Sprintf("%s %s in class %s: ", cs.Workload, cs.ParamStr, cs.Class)
-			if o.Symptom == "verify-failed" {
+			if cs.isPair() {
+				what = fmt.Sprintf("%s (%d benchmark objects, one Driver.Init() context each, in one simulation): ", cs.tripleKey(), 1+len(cs.Extra))
+			}
+			if strings.HasSuffix(o.Symptom, "-instance-verify-failed") {
+				what += "that instance's Run() returned, its Verify() did not (" + trimTo(o.Detail, 200) + ")"
+			} else if o.Symptom == "verify-failed" {
 				what += "Run() returned, Verify() did not (" + trimTo(o.Detail, 200) + ")"
 			} else {
 				what += "the run died before Verify(): " + trimTo(o.Detail, 200)
